@@ -70,6 +70,7 @@ type caseSpec struct {
 	Cause   string `json:"cause"`
 	Moment  int    `json:"moment"`
 	Conc    string `json:"conc,omitempty"`    // concurrency scenario (conc.go): "<order>/<context arrangement>"
+	Hist    string `json:"hist,omitempty"`    // call history on one api.Function (hist.go)
 	Prewarm bool   `json:"prewarm,omitempty"` // same binaries compiled first by a runtime WITHOUT close-on-context-done sharing the compilation cache
 }
 
@@ -84,6 +85,9 @@ func (c caseSpec) String() string {
 	}
 	if c.Conc != "" {
 		s += "/concurrent:" + c.Conc
+	}
+	if c.Hist != "" {
+		s = fmt.Sprintf("%s/%s/history[%s]", c.Shape, c.Engine, c.Hist)
 	}
 	return s
 }
@@ -348,6 +352,9 @@ func runtimeConfig(engine string) wazero.RuntimeConfig {
 func runCase(idx int, spec caseSpec, sh *shape) string {
 	if spec.Conc != "" {
 		return runConcCase(idx, spec, sh)
+	}
+	if spec.Hist != "" {
+		return runHistCase(idx, spec, sh)
 	}
 	bg := context.Background()
 	r := &caseRun{spec: spec, sh: sh, idx: idx, t0: time.Now()} // markers carry the time since the case started
